@@ -485,6 +485,11 @@ async def _run_acts(ctx, ev, sp, prog, att, v, uid, bid):
                 async with ctx.store.edit_state() as s:
                     s[act["key"]] = s.get(act["key"], 0) + 1
             r.add("state", step=step, bid=bid, op=op, key=act["key"])
+        elif k == "only":
+            # the step accepts several event types but only works on some of them: the others are looked at and dropped
+            if type(ev).__name__ not in act["types"]:
+                r.add("ignored_input", step=step, bid=bid, uid=uid, type=type(ev).__name__)
+                return None
         elif k == "hop":
             # a self-feeding chain: hand back an event of the step's own input type until the counter in the payload runs out
             left = int(ev.get("left", 0) or 0)
